@@ -4,6 +4,7 @@ import ShootVerif.Proofs.MapperFlatten
 import ShootVerif.Proofs.MapperNameSpec
 import ShootVerif.Proofs.MapperHeadlines
 import ShootVerif.Proofs.MapperLeaves
+import ShootVerif.Proofs.MapperObs
 import ShootVerif.Gen.Facts
 /-!
 C05 — ToX/FromX copy exactly the matching field pairs, by the type rules.
@@ -139,6 +140,38 @@ theorem C05_pairs (inp : Input) (hs : inp.srcNew = false) (hd : inp.destNew = fa
     comparison of the `to:` keys is an instance of it. -/
 theorem C05_leaf_to (inp : Input) (H : PlainOk inp) (d : Leaf) (hd : d ∈ leavesOf inp.dest) :
     optV (specTo inp d) = some (obsLeaf (execTo inp []) d) := to_leaf inp H d hd
+
+/-- headline at the LEAVES, FromX: the mirror image — whatever the receiver held (nil, fresh, dirty) -/
+theorem C05_leaf_from (inp : Input) (H : PlainOk inp) (recv : Recv) (s : Leaf) (hs : s ∈ leavesOf inp.src) :
+    optV (specFrom inp s) = some (obsLeaf (execFrom inp [] recv) s) := from_leaf inp H recv s hs
+
+/-- THE headline, `∀ input, WF input → obs (model input) = spec input`: for every input in region `WF` of C05 (as the driver
+    prints it) with ASCII names and distinct dotted leaf paths (Go identifiers contain no dot), whose nested struct pairs are
+    mapped rather than converted wholesale (`nestedMapped`, the `to:nested` / `from:nested` key), the complete list of C05
+    observables the model computes — compile, presence of the two methods, every destination leaf after ToX and every source
+    leaf after FromX obtained by EXECUTING the emitted statement lists with their guards and allocations, the receiver keys —
+    equals the list the property prescribes. What the driver evaluates per case (model = spec on WF) is an instance. -/
+theorem C05_obs_spec (inp : Input) (h : region05 inp = "WF") (ha : asciiOk inp = true)
+    (hk1 : ((leavesOf inp.src).map (fun l => joinPath l.path)).Nodup)
+    (hk2 : ((leavesOf inp.dest).map (fun l => joinPath l.path)).Nodup)
+    (hn : nestedMapped inp = true) : obs05 inp = spec05 inp :=
+  obs05_eq_spec05 inp (plainOk_of_WF inp h ha hk1 hk2) hn
+
+/-- the same with the per-leaf WRITE COUNTS (the list the driver prints for a C05 case, but for the round-trip keys): every
+    leaf for which the property names a source is written exactly once, every other leaf never — "no destination field is
+    written twice" and "unmatched … fields stay zero", at the leaves -/
+theorem C05_obs_spec_counts (inp : Input) (h : region05 inp = "WF") (ha : asciiOk inp = true)
+    (hk1 : ((leavesOf inp.src).map (fun l => joinPath l.path)).Nodup)
+    (hk2 : ((leavesOf inp.dest).map (fun l => joinPath l.path)).Nodup)
+    (hn : nestedMapped inp = true) : obs15 inp = spec15 inp :=
+  obs15_eq_spec15_plain inp (plainOk_of_WF inp h ha hk1 hk2) hn
+
+/-- the partially-nil keys (`toN:` / `fromN:`: one embedded pointer / slice element nil in turn) of a C05 case: the model's
+    values are the ideal ones for every mask -/
+theorem C05_part_spec (inp : Input) (h : WF09 inp = true) (hc : modelCompiles inp = true)
+    (srcSlots destSlots masks fmasks : List String) :
+    obsPart inp srcSlots destSlots masks fmasks = specPart inp srcSlots destSlots masks fmasks :=
+  obsPart_eq_specPart inp h hc srcSlots destSlots masks fmasks
 
 /-- the generator's field list of a plain side IS the set of participating leaves: every field is the record of a leaf
     that Go selects by its bare name, is not tagged `map:"-"` and is exported, and resolves to it; every such leaf is a field -/
@@ -320,6 +353,8 @@ example : PlainOk exWF where
     intro d hd
     have : ∀ d ∈ leavesOf exWF.dest, asciiS d.decl.name = true ∧ noUnderscore d.decl.name = true := by decide
     exact ⟨(asciiS_iff _).mp (this d hd).1, (noUnderscore_iff _).mp (this d hd).2⟩
+example : region05 exWF = "WF" ∧ asciiOk exWF = true ∧ ((leavesOf exWF.src).map (fun l => joinPath l.path)).Nodup ∧
+    ((leavesOf exWF.dest).map (fun l => joinPath l.path)).Nodup ∧ nestedMapped exWF = true := by decide
 example : ((plan exWF).toStmts.map (fun c => (c.rd.name, c.wr.name, c.strat))) =
     [("ID", "Id", .func 0), ("Name", "Name", .assign), ("Sub", "Sub", .sub true false)] := by decide
 example : ((plan exWF).fromStmts.map (fun c => (c.rd.name, c.wr.name, c.strat))) =
